@@ -205,8 +205,95 @@ class Reload(Slice):
         return ["used"]
 
 
+class ICacheHistory(Slice):
+    """fetch histories on the instruction memory system itself, with reset()+reload between programs:
+    returned instruction, penalty and counters after every operation vs the model and vs a FRESH cache
+    fed only the fetches since the last reset"""
+    name = "icache-history"
+
+    def gen(self, rng, index, tier):
+        ic = gen_rv.gen_cache_cfg(rng, small=True)
+        if rng.random() < 0.5:
+            ic[0] = rng.choice([0, 0, 1])
+        progs = [[gen_rv.gen_alu(rng) for _ in range(rng.randrange(1, 40))] for _ in range(rng.randrange(1, 4))]
+        ops = []
+        cur = 0
+        for _ in range(rng.randrange(5, 70)):
+            if rng.random() < 0.07 and len(progs) > 1:
+                cur = rng.randrange(len(progs))
+                ops.append([1, cur])
+            else:
+                n = len(progs[cur])
+                hot = [4 * rng.randrange(0, n) for _ in range(4)]
+                ops.append([0, rng.choice(hot) if rng.random() < 0.6 else 4 * rng.randrange(0, n)])
+        return {"ic": ic, "progs": progs, "ops": ops}
+
+    def mk(self, ic, prog):
+        from architecture_simulator.uarch.memory.instruction_memory import InstructionMemory
+        from architecture_simulator.uarch.memory.instruction_memory_cache_system import InstructionMemoryCacheSystem
+        from architecture_simulator.uarch.riscv.riscv_performance_metrics import RiscvPerformanceMetrics
+        from common import make_instr
+        pm = RiscvPerformanceMetrics()
+        im = InstructionMemoryCacheSystem(instruction_memory=InstructionMemory(), num_index_bits=ic[0], num_block_bits=ic[1],
+                                          associativity=ic[2], performance_metrics=pm,
+                                          replacement_strategy="plru" if ic[3] else "lru", miss_penality=ic[5])
+        im.write_instructions([make_instr(t) for t in prog])
+        return im, pm
+
+    def run(self, case, model):
+        from common import make_instr, instr_fields, stats_of
+        ic, progs, ops = case["ic"], case["progs"], case["ops"]
+        im, pm = self.mk(ic, progs[0])
+        fresh, fpm = self.mk(ic, progs[0])
+        it, findings, cl = [], [], set()
+        cur = 0
+        for k, op in enumerate(ops):
+            c0 = pm.cycles
+            if op[0] == 0:
+                ins = im.read_instruction(op[1])
+                fc0 = fpm.cycles
+                fins = fresh.read_instruction(op[1])
+                it.append([[instr_fields(ins)] if ins.mnemonic != "Empty" else [], pm.cycles - c0, stats_of(im.get_cache_stats())])
+                want = progs[cur][op[1] // 4]
+                if instr_fields(ins) != instr_fields(make_instr(want)):
+                    findings.append(("violation", f"op {k}: fetch at {op[1]} returns {ins!r}, instruction memory holds {make_instr(want)!r}"))
+                    break
+                if [stats_of(im.get_cache_stats()), pm.cycles - c0] != [stats_of(fresh.get_cache_stats()), fpm.cycles - fc0]:
+                    findings.append(("violation", f"op {k}: counters/penalty {stats_of(im.get_cache_stats())}/{pm.cycles - c0} differ from a fresh "
+                                                  f"cache fed the fetches since the last reset {stats_of(fresh.get_cache_stats())}/{fpm.cycles - fc0}"))
+                    break
+                cl.add("hit" if im.get_cache_stats()["last_hit"] else "miss")
+            else:
+                cur = op[1]
+                im.reset()
+                im.write_instructions([make_instr(t) for t in progs[cur]])
+                fresh, fpm = self.mk(ic, progs[cur])
+                it.append([[], 0, stats_of(im.get_cache_stats())])
+                cl.add("reset")
+        if not findings:
+            mt = model.call([51, ic, progs, ops])
+            mt = [[ [list(x) for x in a], b, [c[0], c[1], bool(c[2])] if c else []] for a, b, c in mt]
+            if mt != it:
+                k = next((j for j in range(min(len(it), len(mt))) if it[j] != mt[j]), -1)
+                findings.append(("disagreement", f"op {k} {ops[k] if k >= 0 else ''}: impl {it[k] if k >= 0 else len(it)} model {mt[k] if k >= 0 else len(mt)}"))
+        cl.add("plru" if ic[3] else "lru")
+        return findings[:2], cl
+
+    def nontrivial(self, classes):
+        return "hit" in classes and "miss" in classes
+
+    def required_classes(self, tier):
+        return ["hit", "miss", "reset", "plru", "lru"]
+
+    def shrink(self, case):
+        ops = case["ops"]
+        for i in range(len(ops) - 1, -1, -1):
+            yield dict(case, ops=ops[:i] + ops[i + 1:])
+
+
 def slices():
-    return [ICache(), Reload()]
+    return [ICache(), Reload(), ICacheHistory()]
 
 
-BUDGET = {"quick": {"icache": 600, "icache-reload": 200}, "thorough": {"icache": 20000, "icache-reload": 5000}}
+BUDGET = {"quick": {"icache": 600, "icache-reload": 200, "icache-history": 600},
+          "thorough": {"icache": 20000, "icache-reload": 5000, "icache-history": 20000}}
